@@ -248,4 +248,40 @@ def toHandle (t : Chains) (c : Bytes) : Bytes :=
 def reachesConfig (host : Bytes) (t : Chains) (h c : Bytes) : Bool :=
   h == c || resolveChain host t h == c
 
+/-! ### rollapp ids as `MsgCreateRollapp` takes them
+
+`NewChainID` TRIMS the id before it matches the pattern, but the message keeps (and `SetRollapp`
+keys) the id as sent: an id with surrounding white space passes `ValidateBasic`. -/
+
+/-- `NewChainID(id)` succeeds (ASCII ids) -/
+def newChainIDOk (id : Bytes) : Bool := validRollappId (trimSpace id)
+
+/-- the EIP155 number of a valid id as `GetEIP155ID()` gives it (`big.Int.Uint64`: low 64 bits) -/
+def rollappEip (id : Bytes) : Nat :=
+  match splitAtSep 95 id with
+  | none => 0
+  | some (_, rest) => match splitAtSep 45 rest with
+    | none => 0
+    | some (eip, _) => decVal eip % 2 ^ 64
+
+/-- the revision number of a valid id -/
+def rollappRev (id : Bytes) : Nat :=
+  match splitAtSep 95 id with
+  | none => 0
+  | some (_, rest) => match splitAtSep 45 rest with
+    | none => 0
+    | some (_, rev) => decVal rev
+
+/-- `MsgCreateRollapp` gets past the id checks on an empty store: `ValidateBasic` (`NewChainID`) and
+    "revision number should be 1" -/
+def createIdOk (id : Bytes) : Bool := newChainIDOk id && rollappRev (trimSpace id) == 1
+
+/-- `CheckIfRollappExists(NewChainID(id2))` on a store that holds exactly the rollapp registered
+    with the text `stored` (keyed as sent): the exact-key lookup of the TRIMMED id, the EIP155 index,
+    and the name scan `name_` over the `Rollapp/value/` keys -/
+def rollappExistsAfter (stored id2 : Bytes) : Bool :=
+  let t := trimSpace id2
+  t == stored || rollappEip t == rollappEip (trimSpace stored) ||
+    isPrefix (rollappByNamePrefix (rollappName t)) (rollappKey stored)
+
 end DymVerif.Keys
